@@ -9,6 +9,10 @@
 //!   `runner::verif_script_helpers`).
 //! * `final_stats` — the public `RunStats::summarize_final` on caller-supplied setup-script
 //!   counters (everything else zero).
+//! * `run` — a real run of the real runner (public API only: `TestList::new`,
+//!   `TestRunnerBuilder::build`, `TestRunner::execute`) over scripted setup scripts and scripted
+//!   test binaries (shell scripts) that log what they see: event order, invocation log, the
+//!   environment received by every test process, final statistics.
 use crate::common::*;
 use camino::Utf8PathBuf;
 use nextest_filtering::{BinaryQuery, ParseContext, TestQuery};
@@ -223,9 +227,257 @@ fn final_stats(case: &Value) -> Value {
     }
 }
 
+/// A real run. The case holds `toml` (with `@DIR@` standing for the scratch directory),
+/// `profile`, `scripts` (`name`, `exit`, `env_bytes`, `sleep_ms`, `hang`), `binaries` (`pkg`,
+/// `binary_id`, `tests`), `test_threads`.
+fn real_run(case: &Value) -> Value {
+    use nextest_filtering::{CompiledExpr, EvalContext};
+    use nextest_runner::{
+        cargo_config::{CargoConfigs, EnvironmentMap},
+        double_spawn::DoubleSpawnInfo,
+        input::InputHandlerKind,
+        list::{RustBuildMeta, RustTestArtifact, TestExecuteContext, TestList},
+        reporter::events::TestEventKind,
+        runner::TestRunnerBuilder,
+        signal::SignalHandlerKind,
+        target_runner::TargetRunner,
+        test_filter::{FilterBound, RunIgnored, TestFilterBuilder},
+    };
+    use std::os::unix::fs::PermissionsExt;
+
+    let dir = unique_path("run").with_extension("d");
+    std::fs::create_dir_all(&dir).expect("scratch dir");
+    let log = dir.join("log");
+    std::fs::write(&log, "").unwrap();
+
+    // setup scripts
+    for sc in case["scripts"].as_array().unwrap() {
+        let name = sc["name"].as_str().unwrap();
+        let bytes: Vec<u8> = sc["env_bytes"]
+            .as_array()
+            .map(|a| a.iter().map(|b| b.as_u64().unwrap() as u8).collect())
+            .unwrap_or_default();
+        std::fs::write(dir.join(format!("envsrc-{name}")), bytes).unwrap();
+        let mut body = format!(
+            "printf 'S {name} start\\n' >> '{log}'\ncat '{dir}/envsrc-{name}' >> \"$NEXTEST_ENV\"\n"
+        );
+        if let Some(ms) = sc["sleep_ms"].as_u64() {
+            body.push_str(&format!("sleep {}.{:03}\n", ms / 1000, ms % 1000));
+        }
+        if sc["hang"].as_bool().unwrap_or(false) {
+            body.push_str("exec sleep 20\n");
+        }
+        body.push_str(&format!(
+            "printf 'S {name} end\\n' >> '{log}'\nexit {}\n",
+            sc["exit"].as_u64().unwrap_or(0)
+        ));
+        std::fs::write(dir.join(format!("script-{name}.sh")), body).unwrap();
+    }
+
+    // scripted test binaries
+    let graph = graph();
+    let mut artifacts = Vec::new();
+    for b in case["binaries"].as_array().unwrap() {
+        let id = b["binary_id"].as_str().unwrap();
+        let listing: String = strs(&b["tests"])
+            .iter()
+            .map(|t| format!("{t}: test\n"))
+            .collect();
+        std::fs::write(dir.join(format!("listing-{id}")), listing).unwrap();
+        let body = format!(
+            "#!/bin/sh\nif [ \"$1\" = \"--list\" ]; then\n  case \"$*\" in *--ignored*) exit 0;; esac\n  \
+             cat '{dir}/listing-{id}'\n  exit 0\nfi\nprintf 'T {id} %s\\n' \"$2\" >> '{log}'\n\
+             env > \"{dir}/testenv-{id}-$2\"\nexit 0\n"
+        );
+        let path = dir.join(format!("bin-{id}"));
+        std::fs::write(&path, body).unwrap();
+        std::fs::set_permissions(&path, std::fs::Permissions::from_mode(0o755)).unwrap();
+        let package = graph
+            .metadata(&package_id(b["pkg"].as_str().unwrap()))
+            .expect("package in fixture graph");
+        artifacts.push(RustTestArtifact {
+            binary_id: RustBinaryId::new(id),
+            package,
+            binary_path: path,
+            binary_name: id.to_owned(),
+            kind: kind_of("lib"),
+            non_test_binaries: BTreeSet::new(),
+            cwd: dir.clone(),
+            build_platform: platform_of("target"),
+        });
+    }
+
+    // configuration
+    let pcx = ParseContext::new(graph);
+    let config_path = dir.join("nextest.toml");
+    std::fs::write(
+        &config_path,
+        case["toml"].as_str().unwrap().replace("@DIR@", dir.as_str()),
+    )
+    .unwrap();
+    let experimental: BTreeSet<_> = [ConfigExperimental::SetupScripts].into_iter().collect();
+    let no_tools: Vec<ToolConfigFile> = Vec::new();
+    let config = match NextestConfig::from_sources(
+        graph.workspace().root(),
+        &pcx,
+        Some(&config_path),
+        &no_tools,
+        &experimental,
+    ) {
+        Ok(c) => c,
+        Err(e) => return json!({ "config_error": format!("{e} [{:?}]", e.kind()) }),
+    };
+    let profile_name = case["profile"].as_str().unwrap_or("default");
+    let bp = build_platforms("x86_64-unknown-linux-gnu", None);
+    let profile = config
+        .profile(profile_name)
+        .expect("profile")
+        .apply_build_platforms(&bp);
+
+    // test list
+    let double_spawn = DoubleSpawnInfo::disabled();
+    let target_runner = TargetRunner::empty();
+    let ctx = TestExecuteContext {
+        profile_name,
+        double_spawn: &double_spawn,
+        target_runner: &target_runner,
+    };
+    let ecx = EvalContext {
+        default_filter: &CompiledExpr::ALL,
+    };
+    let configs =
+        CargoConfigs::new_with_isolation(Vec::<String>::new(), &dir, &dir, Vec::new()).unwrap();
+    let env = EnvironmentMap::new(&configs);
+    let filter = TestFilterBuilder::default_set(RunIgnored::Default);
+    let test_list = match TestList::new(
+        &ctx,
+        artifacts,
+        RustBuildMeta::new(dir.join("target"), bp.clone())
+            .map_paths(&nextest_runner::reuse_build::PathMapper::noop()),
+        &filter,
+        dir.clone(),
+        env,
+        &ecx,
+        FilterBound::All,
+        2,
+    ) {
+        Ok(l) => l,
+        Err(e) => return json!({ "error": format!("test list: {e}") }),
+    };
+
+    let mut builder = TestRunnerBuilder::default();
+    if let Some(n) = case["test_threads"].as_u64() {
+        builder.set_test_threads(nextest_runner::config::TestThreads::Count(n as usize));
+    }
+    let runner = builder
+        .build(
+            &test_list,
+            &profile,
+            vec![],
+            SignalHandlerKind::Noop,
+            InputHandlerKind::Noop,
+            double_spawn.clone(),
+            TargetRunner::empty(),
+        )
+        .expect("runner");
+
+    let mut events: Vec<Value> = Vec::new();
+    let mut final_stats: Option<RunStats> = None;
+    let res = runner.execute(|event| match event.kind {
+        TestEventKind::SetupScriptStarted { script_id, .. } => {
+            events.push(json!(["script-started", script_id.to_string()]));
+        }
+        TestEventKind::SetupScriptFinished {
+            script_id,
+            run_status,
+            ..
+        } => {
+            use nextest_runner::reporter::events::ExecutionResult as R;
+            let code = match run_status.result {
+                R::Pass => 0,
+                R::Leak => 1,
+                R::Fail { .. } => 2,
+                R::ExecFail => 3,
+                R::Timeout => 4,
+            };
+            events.push(json!([
+                "script-finished",
+                script_id.to_string(),
+                code,
+                run_status.env_map.is_some()
+            ]));
+        }
+        TestEventKind::TestStarted { test_instance, .. } => {
+            events.push(json!([
+                "test-started",
+                test_instance.suite_info.binary_id.as_str(),
+                test_instance.name
+            ]));
+        }
+        TestEventKind::TestFinished { test_instance, .. } => {
+            events.push(json!([
+                "test-finished",
+                test_instance.suite_info.binary_id.as_str(),
+                test_instance.name
+            ]));
+        }
+        TestEventKind::RunBeginCancel { reason, .. } => {
+            events.push(json!(["begin-cancel", format!("{reason:?}")]));
+        }
+        TestEventKind::RunFinished { run_stats, .. } => {
+            final_stats = Some(run_stats);
+        }
+        _ => {}
+    });
+    if let Err(e) = res {
+        return json!({ "error": format!("execute: {e:?}") });
+    }
+
+    let log_lines: Vec<String> = std::fs::read_to_string(&log)
+        .unwrap_or_default()
+        .lines()
+        .map(|l| l.to_owned())
+        .collect();
+    let mut test_envs = serde_json::Map::new();
+    for b in case["binaries"].as_array().unwrap() {
+        let id = b["binary_id"].as_str().unwrap();
+        for t in strs(&b["tests"]) {
+            if let Ok(bytes) = std::fs::read(dir.join(format!("testenv-{id}-{t}"))) {
+                let text = String::from_utf8_lossy(&bytes).into_owned();
+                let vars: Vec<Value> = text
+                    .lines()
+                    .filter_map(|l| l.split_once('=').map(|(k, v)| json!([k, v])))
+                    .collect();
+                test_envs.insert(format!("{id} {t}"), Value::Array(vars));
+            }
+        }
+    }
+    let stats = final_stats.unwrap_or_default();
+    let summary = match stats.summarize_final() {
+        FinalRunStats::Success => "success",
+        FinalRunStats::NoTestsRun => "no-tests-run",
+        FinalRunStats::Failed(RunStatsFailureKind::SetupScript) => "failed-setup-script",
+        FinalRunStats::Cancelled(RunStatsFailureKind::SetupScript) => "cancelled-setup-script",
+        FinalRunStats::Failed(RunStatsFailureKind::Test { .. }) => "failed-test",
+        FinalRunStats::Cancelled(RunStatsFailureKind::Test { .. }) => "cancelled-test",
+    };
+    let _ = std::fs::remove_dir_all(&dir);
+    json!({
+        "events": events,
+        "log": log_lines,
+        "test_envs": test_envs,
+        "summary": summary,
+        "scripts_initial": stats.setup_scripts_initial_count,
+        "scripts_finished": stats.setup_scripts_finished_count,
+        "tests_initial": stats.initial_run_count,
+        "tests_finished": stats.finished_count,
+    })
+}
+
 pub fn run(case: &Value) -> Value {
     match case["op"].as_str().unwrap_or("") {
         "scripts" => scripts(case),
+        "run" => real_run(case),
         "parse_env" => parse_env(case),
         "final_stats" => final_stats(case),
         "exit_code" => json!(nextest_metadata::NextestExitCode::SETUP_SCRIPT_FAILED),
